@@ -33,6 +33,8 @@ func main() {
 	rule := flag.String("rule", "", "debug: run a single rule and print its obligations")
 	dump := flag.String("dump", "", "debug: dump OWN summaries of functions whose name contains this")
 	listRules := flag.Bool("list", false, "list rules and the properties they serve")
+	tldump := flag.String("tl", "", "debug: dump TL summaries at level 32|64 (optionally level:filter)")
+	all := flag.Bool("all", false, "debug: run every registered rule once and print the findings")
 	manifest := flag.Bool("manifest", false, "regenerate /verif/MANIFEST.json from the property table")
 	flag.Parse()
 	// go/packages resolves the "go" command through this process's PATH
@@ -76,6 +78,80 @@ func main() {
 	}
 	if t != "thorough" {
 		t = "quick"
+	}
+	if *all {
+		p, err := Load(cfgAmd64, nil)
+		if err != nil {
+			fmt.Println("LOAD ERROR:", err)
+			os.Exit(2)
+		}
+		var ids []string
+		for id := range ruleTable {
+			ids = append(ids, id)
+		}
+		sort.Strings(ids)
+		total := 0
+		for _, id := range ids {
+			res := func() (res *RuleResult) {
+				defer func() {
+					if r := recover(); r != nil {
+						res = newResult(id, "", 0)
+						res.undecided("panic", "-", fmt.Sprint(r))
+					}
+				}()
+				return ruleTable[id](p)
+			}()
+			if len(res.Obs) < res.MinExpected {
+				res.undecided("liveness", "-", fmt.Sprintf("%d < %d", len(res.Obs), res.MinExpected))
+			}
+			fmt.Printf("RULE %-10s obligations=%d findings=%d\n", id, len(res.Obs), len(res.Findings))
+			for _, f := range res.Findings {
+				msg := f.Msg
+				if len(msg) > 300 {
+					msg = msg[:300]
+				}
+				fmt.Printf("  FINDING %s @%s: %s\n", f.Key, f.Pos, msg)
+				total++
+			}
+		}
+		fmt.Printf("TOTAL findings=%d\n", total)
+		return
+	}
+	if *tldump != "" {
+		p, err := Load(cfgAmd64, nil)
+		if err != nil {
+			fmt.Println("LOAD ERROR:", err)
+			os.Exit(2)
+		}
+		parts := strings.SplitN(*tldump, ":", 2)
+		e, err := p.TL(parts[0])
+		if err != nil {
+			fmt.Println(err)
+			os.Exit(2)
+		}
+		var ks []string
+		for k := range e.sums {
+			ks = append(ks, k)
+		}
+		sort.Strings(ks)
+		for _, k := range ks {
+			if len(parts) > 1 && !strings.Contains(k, parts[1]) {
+				continue
+			}
+			s := e.sums[k]
+			fmt.Printf("%s\n   ret=%v pair=%v establish=%v%v reqs=%v flagLoad=%v flagSet=%v markAll=%v\n", strings.ReplaceAll(k, modPath, "roaring"), s.ret, s.pair, s.establish, s.estPaths, s.reqs, s.flagLoad, s.flagSet, s.markAll)
+			for tab, w := range s.mutTab {
+				fmt.Printf("      mutTab %s  <- %s\n", tab, w)
+			}
+		}
+		fmt.Println("fields:")
+		for k, v := range e.field {
+			fmt.Println("  ", k, v.list())
+		}
+		for k, v := range e.chanJ {
+			fmt.Println("   chan", k, v.list())
+		}
+		return
 	}
 	if *dump != "" || *rule != "" {
 		p, err := Load(cfgAmd64, nil)
